@@ -229,18 +229,20 @@ fn gen_unamb(g: &mut Gen, kind: i128, year_abs_lt: i128) -> Vec<Item> {
     let mut fields: Vec<Item> = vec![];
     let date = kind != 1; let time = kind != 0;
     if date {
-        let has_md = g.rng.chance(1, 2);
-        let has_doy = !has_md && g.rng.chance(1, 2);
-        if has_md || has_doy || g.rng.chance(1, 2) {
+        // month, day of month and day of year in every combination (day of year takes precedence over month/day)
+        let (has_mo, has_dom, has_doy) = match g.rng.next() % 16 {
+            0..=5 => (true, true, false), 6 | 7 => (false, false, true), 8 | 9 => (true, false, true), 10 | 11 => (false, true, true),
+            12 => (true, false, false), 13 => (false, true, false), 14 => (true, true, true), _ => (false, false, false) };
+        if has_mo || has_dom || has_doy || g.rng.chance(1, 2) {
             // yyyyy and longer only when the year fits the width (|year| < 10^w)
             let mut w = *g.rng.pick(&[1usize, 3, 4, 4, 4, 6, 7, 9]);
             if w >= 5 && year_abs_lt >= 10i128.pow(w as u32) { w = 4; }
             fields.push(Item::Field('y', w));
         }
-        if has_md {
-            fields.push(Item::Field('M', *g.rng.pick(&[1usize, 2, 2, 3, 4, 4]))); fields.push(Item::Field('d', *g.rng.pick(&[1usize, 2, 2])));
-        } else if has_doy { fields.push(Item::Field('D', *g.rng.pick(&[1usize, 2, 3, 3]))); }
-        let full = fields.iter().any(|f| matches!(f, Item::Field('y', _))) && fields.iter().any(|f| matches!(f, Item::Field('d', _) | Item::Field('D', _)));
+        if has_mo { fields.push(Item::Field('M', *g.rng.pick(&[1usize, 2, 2, 3, 4, 4]))); }
+        if has_dom { fields.push(Item::Field('d', *g.rng.pick(&[1usize, 2, 2]))); }
+        if has_doy { fields.push(Item::Field('D', *g.rng.pick(&[1usize, 2, 3, 3]))); }
+        let full = fields.iter().any(|f| matches!(f, Item::Field('y', _))) && ((has_mo && has_dom) || has_doy);
         // fields that are not read back (era, weekday, quarter, week) only alongside a full date, which determines them
         if full {
             if g.rng.chance(1, 3) { fields.push(Item::Field('G', *g.rng.pick(&[1usize, 4, 5]))); }
@@ -464,6 +466,23 @@ pub fn gen_c14(g: &mut Gen, tier: &str) {
         // format with the hostile pattern
         let mut ints = vec![kind]; ints.extend(value_pool(g, kind)); ints.push(0);
         g.push(true, Input::with_strs("fmt", ints, vec![pat]));
+    }
+    // several fields (repeats allowed) each at the edge of its range: sums and carries in the assembly of the value
+    let edge: [(&str, &[&str]); 16] = [("yyyy", &["9999", "0001"]), ("MM", &["12", "01"]), ("dd", &["31", "28", "01"]), ("DDD", &["366", "365", "001"]),
+        ("HH", &["23", "00"]), ("hh", &["12", "11"]), ("KK", &["11", "00"]), ("kk", &["24", "23"]), ("a", &["PM", "AM"]), ("mm", &["59", "00"]), ("ss", &["59", "00"]),
+        ("n", &["9", "0"]), ("nn", &["99", "00"]), ("nnn", &["999", "000"]), ("nnnn", &["999999", "000000"]), ("nnnnn", &["999999999", "000000000"])];
+    for k in 0..n / 2 {
+        let kind = 1 + (k % 2) as i128;
+        let cnt = 2 + (g.rng.next() % 5) as usize;
+        let mut pat = String::new(); let mut inp = String::new();
+        if kind == 2 || g.rng.chance(1, 4) { pat.push_str("yyyy-MM-dd "); inp.push_str(*g.rng.pick(&["2024-12-31 ", "9999-12-31 ", "0001-01-01 ", "2023-02-28 "])); }
+        if g.rng.chance(3, 4) { pat.push_str("HH:mm:ss"); inp.push_str(if g.rng.chance(5, 6) { "23:59:59" } else { "00:00:00" }); }
+        for _ in 0..cnt {
+            let (f, vals) = *g.rng.pick(&edge);
+            let v = if g.rng.chance(4, 5) { vals[0] } else { *g.rng.pick(vals) };
+            pat.push(' '); pat.push_str(f); inp.push(' '); inp.push_str(v);
+        }
+        g.push(true, Input::with_strs("parse", vec![kind, now_year], vec![inp, pat]));
     }
     for p in ["'", "''", "'''", "yyyy'", "'abc", "y'", "\u{0}", "\u{0}\u{0}", "'\u{0}", "''''", "'a''", "y''y", "\u{e9}'\u{e9}", ""] {
         for kind in 0..3i128 {
